@@ -1,8 +1,12 @@
 SPECIFICATION Spec
 CONSTANT DevBfs = FALSE
+CONSTANT DevSel = "none"
+CONSTANT DevImg = "none"
 INVARIANT WindowLaws
 INVARIANT RingLaw
 INVARIANT Window2Law
 INVARIANT Ring2Law
+INVARIANT SelLaw
+INVARIANT ApplyLaw
 INVARIANT ExportInv
 CHECK_DEADLOCK FALSE
